@@ -453,9 +453,16 @@ def _read_block_selection(prog: Program, res: Result) -> None:
         f = prog.func("sigpyproc.readers", f"{cname}.read_block")
         flow = flow_of(f)
         ups = [(c, d) for c, d, k2, _ in _header_updates(f) if k2 == "new_header" and d]
-        rows = [s_ for s_ in body_walk(f.node) if isinstance(s_, ast.Assign) and isinstance(s_.value, ast.Subscript) and isinstance(s_.value.slice, ast.Slice)
-                and s_.value.slice.lower is not None and s_.value.slice.upper is not None and s_.value.slice.step is None
-                and norm(s_.value.slice.lower) in norm(s_.value.slice.upper) and "chan" in norm(s_.value.slice.lower)]
+        # the row selection: a slice [lo:up] of the (channel, sample) array whose length is the nchans the header is given (or, failing that,
+        # the only two-sided slice whose upper bound mentions its lower bound)
+        two_sided = [s_ for s_ in body_walk(f.node) if isinstance(s_, ast.Assign) and isinstance(s_.value, ast.Subscript) and isinstance(s_.value.slice, ast.Slice)
+                     and s_.value.slice.lower is not None and s_.value.slice.upper is not None and s_.value.slice.step is None]
+        ups0 = [d_ for c_, d_, k2_, _ in _header_updates(f) if k2_ == "new_header" and d_]
+        want_n = PolyEnv().poly(ups0[0]["nchans"]) if len(ups0) == 1 and "nchans" in ups0[0] else None
+        rows = [s_ for s_ in two_sided if want_n is not None and PolyEnv().poly(s_.value.slice.upper) - PolyEnv().poly(s_.value.slice.lower) == want_n]
+        if not rows:
+            rows = [s_ for s_ in two_sided if norm(s_.value.slice.lower) in norm(s_.value.slice.upper) and
+                    not any(isinstance(n_, ast.Name) and n_.id in ("startsamp", "start") for n_ in ast.walk(s_.value.slice.lower))]
         key = f"{cname}.read_block:rows"
         if len(ups) != 1 or len(rows) != 1:
             res.bad("R1", f, f.node, "cannot identify the channel slice and the header of the block", construct="read_block", key=key)
